@@ -113,6 +113,26 @@ class Sem:
             return self.layout(t)["size"]
         raise ValueError(k)
 
+    def min_size(self, t):
+        """Lower bound of the bytes one value of t consumes (0 = may consume nothing)."""
+        t = self.res(t)
+        k = t["k"]
+        if k == "s":
+            return 1 if SCALARS[t["n"]][0] == "leb" else SCALARS[t["n"]][1]
+        if k in ("e", "p"):
+            return self.size(t)
+        if k == "a":
+            form = t["len"][0]
+            if form == "fixed":
+                return t["len"][1] * self.min_size(t["t"])
+            if form == "null":
+                return self.min_size(t["t"])
+            return 0
+        if k == "st":
+            parts = [1 if f.get("bits") else self.min_size(f["t"]) for f in t["fields"]]
+            return (max(parts) if parts else 0) if t["kind"] == "union" else sum(parts)
+        raise ValueError(k)
+
     def align(self, t):
         t = self.res(t)
         k = t["k"]
